@@ -205,6 +205,10 @@ def process_includes(lualines, filename=None):
         else:
             with open(inc_full_path, 'rb') as fh:
                 for line in fh:
+                    if not line.endswith(b'\n'):
+                        # (A file without a final newline must not join its
+                        # last line with the cart's next line.)
+                        line += b'\n'
                     yield line
 
 
